@@ -13,7 +13,8 @@ KEEP = ("raises:", "raises-only", "coverage:", "frame:", "result-range", "progre
 def main(argv=None):
     ck = Check("C06", argv, level="proof")
     res = world.run_functions(ck, MODS, FUNCS, timeout=20 if ck.tier == "quick" else 60, hooks_mod="contracts.parser")
-    world.report(ck, res, select=lambda n: any(k in n for k in KEEP))
+    from vlib.modelreplay import make_replayer
+    world.report(ck, res, select=lambda n: any(k in n for k in KEEP), replayer=make_replayer(ck, MODS))
     facts = []
     for r in res:
         facts.extend(r.get("regex_facts", []))
